@@ -383,11 +383,54 @@ func (e *Engine) call(fn *ssa.Function, s *St, in *ssa.Call, ip int) (next []suc
 	case ipfx + "native/neo.Transfer":
 		return set(BoolV{tTrue})
 	case ipfx + "native/roles.GetDesignatedByRole":
-		var ks []Value
-		for _, k := range e.irPubs() {
-			ks = append(ks, constBytes(string(k)))
+		// neo-go RoleManagement: the latest designation whose activation block is <= index; the index may not
+		// exceed the block being processed (current height + 1). The index used to be ignored (the latest keys
+		// were returned whatever was asked), which hid a look-up one block too early.
+		idx := args[1].(IntV).t
+		if tooFar := Lt(s.height, idx); !tooFar.isC() || tooFar.b {
+			if tooFar.isC() || e.feasible(s.State, tooFar) {
+				if tooFar.isC() || !e.feasible(s.State, Not(tooFar)) {
+					return nil, []Out{{s.State, true, constBytes("GetDesignatedByRole: index exceeds the current height + 1")}}, false
+				}
+				faulted := s.fork(tooFar)
+				s.State.pc = And(s.pc, Not(tooFar))
+				fin = append(fin, Out{faulted, true, constBytes("GetDesignatedByRole: index exceeds the current height + 1")})
+			}
 		}
-		return set(ListV{e.alloc(s.State, ArrObj{ks})})
+		mk := func(st *State, pubs [][]byte) Value {
+			var ks []Value
+			for _, k := range pubs {
+				ks = append(ks, constBytes(string(k)))
+			}
+			return ListV{e.alloc(st, ArrObj{ks})}
+		}
+		// newest first; each undecided activation forks the path
+		for h := len(e.irHistory) - 1; h >= 0; h-- {
+			d := e.irHistory[h]
+			inForce := Le(d.act, idx)
+			if inForce.isC() {
+				if inForce.b {
+					s.env[in] = mk(s.State, d.pubs)
+					st := &St{State: s.State, blk: s.blk, ip: ip + 1, env: s.env}
+					return append(next, succ{st, nil}), fin, false
+				}
+				continue
+			}
+			if e.feasible(s.State, inForce) {
+				if !e.feasible(s.State, Not(inForce)) {
+					s.env[in] = mk(s.State, d.pubs)
+					st := &St{State: s.State, blk: s.blk, ip: ip + 1, env: s.env}
+					return append(next, succ{st, nil}), fin, false
+				}
+				fs := s.fork(inForce)
+				env := cloneEnv(s.env)
+				env[in] = mk(fs, d.pubs)
+				next = append(next, succ{&St{State: fs, blk: s.blk, ip: ip + 1, env: env}, nil})
+				s.State.pc = And(s.pc, Not(inForce))
+			}
+		}
+		s.env[in] = mk(s.State, nil) // nothing designated yet
+		return append(next, succ{&St{State: s.State, blk: s.blk, ip: ip + 1, env: s.env}, nil}), fin, false
 	case ipfx + "contract.CreateStandardAccount":
 		k, ok := isConstBytes(args[0].(BytesV))
 		if !ok {
